@@ -18,7 +18,74 @@ NOT_DECIDED = ["completion times of hooks relative to ticks", "behaviour of hook
 ASSUMPTIONS = ["PrekillHookInvocation's destructor ends the invocation"]
 
 
+def hook_list_rule(ctx):
+    """The prekill hook list keeps its priority order (drop-in hooks newest first, then base hooks in configuration order) through every
+    operation anybody applies to it, and hooks leave it only when their drop-in tag is removed.  Shared by C07 and C13."""
+    P = ctx.prog
+    # priority order survives every other operation on the hook list: only order-preserving mutators may touch it
+    STABLE = {"emplace_back", "push_back", "erase", "clear", "remove_if", "remove", "erase_if", "begin", "end", "cbegin", "cend", "rbegin", "rend", "crbegin", "crend",
+              "size", "empty", "reserve", "find_if", "find", "any_of", "all_of", "none_of", "for_each", "count_if", "operator=", "stable_partition", "shrink_to_fit"}
+    n_ops = 0
+    for f in P.fns.values():
+        if f.kind in ("ctor", "dtor") and not f.nodes:
+            continue
+        for i, n in enumerate(f.nodes):
+            if n["k"] != "call" or f.pos_of(i) is None:
+                continue
+            recv = f.text(n["recv"]) if "recv" in n else ""
+            touches = recv.endswith("prekill_hooks_in_reverse_order_") or any(
+                re.match(r"^(this->)?prekill_hooks_in_reverse_order_(\.(begin|end|rbegin|rend)\(\))?$", f.text(a)) for a in n.get("args", []))
+            if not touches:
+                continue
+            n_ops += 1
+            nm = n.get("cname") or ""
+            if nm in STABLE or n.get("op") in ("=",):
+                continue
+            if nm in ("operator[]", "at", "front", "back") or n.get("op") == "[]":
+                # element access: order preserving unless the element itself is replaced (assigned, swapped, moved from)
+                par = f.parent.get(i)
+                while par is not None and f.nodes[par]["k"] in ("cast", "paren", "other"):
+                    par = f.parent.get(par)
+                pn = f.nodes[par] if par is not None else None
+                replaced = pn is not None and ((pn["k"] == "bin" and pn.get("op") == "=" and i in list(f.walk(pn["l"]))) or
+                                               (pn["k"] == "call" and pn.get("op") == "=" and "recv" in pn and i in list(f.walk(pn["recv"]))) or
+                                               (pn["k"] == "call" and pn.get("cname") in ("swap", "iter_swap", "exchange", "move")))
+                if not replaced:
+                    continue
+            ctx.violation("hook-order-preserved:%s@%s" % (short(f), nm), "who-may-write (order-preserving operations)", f.loc(i),
+                          "%s is applied to the prekill hook list: it is not an order-preserving operation, so the surviving hooks can be tried in a "
+                          "different priority order (drop-in hooks newest first, then base hooks in config order)" % nm)
+    # nothing but the removal of a tag takes hooks out of the list: erasing calls live in Engine::removeDropInConfig only
+    SHRINK = {"erase", "clear", "remove_if", "remove", "erase_if", "pop_back", "resize", "operator=", "swap", "assign"}
+    n_shr = 0
+    for f in P.fns.values():
+        if f.kind in ("ctor", "dtor") and f.cls == "Oomd::Engine::Engine" and f.kind == "dtor":
+            continue
+        for i, n in enumerate(f.nodes):
+            if n["k"] != "call" or f.pos_of(i) is None:
+                continue
+            recv = f.text(n["recv"]) if "recv" in n else ""
+            touches = recv.endswith("prekill_hooks_in_reverse_order_") or any(
+                re.match(r"^(this->)?prekill_hooks_in_reverse_order_(\.(begin|end|rbegin|rend|cbegin|cend)\(\))?$", f.text(a)) for a in n.get("args", []))
+            if not touches or not ((n.get("cname") or "") in SHRINK or n.get("op") == "="):
+                continue
+            n_shr += 1
+            owner = f
+            while owner.kind == "lambda" and owner.d.get("parentfn") in P.fns:
+                owner = P.fns[owner.d["parentfn"]]
+            ctx.check(owner.pq == "Oomd::Engine::Engine::removeDropInConfig", "hooks-removed-only-with-their-tag:%s@%s" % (short(owner), n.get("cname") or n.get("op")),
+                      "who-may-write (removal)", f.loc(i), "hooks leave the list only when their drop-in tag is removed",
+                      "%s takes hooks out of the prekill hook list outside removeDropInConfig: hooks of a drop-in that is still configured (or base hooks) "
+                      "disappear, so removing the newer drop-in does not restore the older one's hooks" % short(owner))
+    ctx.counters["hook_list_removals"] = n_shr
+    ctx.floor("hook_list_removals", 1, "erasing operations on prekill_hooks_in_reverse_order_ (removeDropInConfig)")
+    ctx.counters["hook_list_operations"] = n_ops
+    ctx.floor("hook_list_operations", 5, "operations on prekill_hooks_in_reverse_order_")
+    ctx.ok("hook-order-preserved", "who-may-write (order-preserving operations)", "-", "%d operations on the hook list, all order preserving" % n_ops)
+
+
 def run(ctx):
+    saved_context_is_a_copy(ctx, "C07")
     # locals / parameters the rules below refer to by name (a rename makes the analysis 'broken', never a violation)
     ctx.anchor(ctx.fn1('Oomd::BaseKillPlugin::resumeTryingToKillSomething'), 'candidate', 'nextBestOptionStack')
     ctx.anchor(ctx.fn1('Oomd::BaseKillPlugin::resumeFromPrekillHook'), 'intendedCandidate', 'intendedVictim')
@@ -359,42 +426,7 @@ def run(ctx):
         ctx.check(want_tag in t, "hook-tag:" + short(f), "value-shape", f.loc(pushes[0]) if pushes else f.loc(),
                   "hooks carry %s as drop-in tag" % want_tag, "hook tagged with " + t[:80])
     ctx.floor("hook_insert_sites", 2, "hook list insertion sites")
-    # priority order survives every other operation on the hook list: only order-preserving mutators may touch it
-    STABLE = {"emplace_back", "push_back", "erase", "clear", "remove_if", "remove", "erase_if", "begin", "end", "cbegin", "cend", "rbegin", "rend", "crbegin", "crend",
-              "size", "empty", "reserve", "find_if", "find", "any_of", "all_of", "none_of", "for_each", "count_if", "operator=", "stable_partition", "shrink_to_fit"}
-    n_ops = 0
-    for f in P.fns.values():
-        if f.kind in ("ctor", "dtor") and not f.nodes:
-            continue
-        for i, n in enumerate(f.nodes):
-            if n["k"] != "call" or f.pos_of(i) is None:
-                continue
-            recv = f.text(n["recv"]) if "recv" in n else ""
-            touches = recv.endswith("prekill_hooks_in_reverse_order_") or any(
-                re.match(r"^(this->)?prekill_hooks_in_reverse_order_(\.(begin|end|rbegin|rend)\(\))?$", f.text(a)) for a in n.get("args", []))
-            if not touches:
-                continue
-            n_ops += 1
-            nm = n.get("cname") or ""
-            if nm in STABLE or n.get("op") in ("=",):
-                continue
-            if nm in ("operator[]", "at", "front", "back") or n.get("op") == "[]":
-                # element access: order preserving unless the element itself is replaced (assigned, swapped, moved from)
-                par = f.parent.get(i)
-                while par is not None and f.nodes[par]["k"] in ("cast", "paren", "other"):
-                    par = f.parent.get(par)
-                pn = f.nodes[par] if par is not None else None
-                replaced = pn is not None and ((pn["k"] == "bin" and pn.get("op") == "=" and i in list(f.walk(pn["l"]))) or
-                                               (pn["k"] == "call" and pn.get("op") == "=" and "recv" in pn and i in list(f.walk(pn["recv"]))) or
-                                               (pn["k"] == "call" and pn.get("cname") in ("swap", "iter_swap", "exchange", "move")))
-                if not replaced:
-                    continue
-            ctx.violation("hook-order-preserved:%s@%s" % (short(f), nm), "who-may-write (order-preserving operations)", f.loc(i),
-                          "%s is applied to the prekill hook list: it is not an order-preserving operation, so the surviving hooks can be tried in a "
-                          "different priority order (drop-in hooks newest first, then base hooks in config order)" % nm)
-    ctx.counters["hook_list_operations"] = n_ops
-    ctx.floor("hook_list_operations", 5, "operations on prekill_hooks_in_reverse_order_")
-    ctx.ok("hook-order-preserved", "who-may-write (order-preserving operations)", "-", "%d operations on the hook list, all order preserving" % n_ops)
+    hook_list_rule(ctx)
     add = ctx.fn1("Oomd::Engine::Engine::addDropInConfig")
     # hooks are appended only after all rulesets of the unit were added
     pushes = [i for i in add.calls("emplace_back") if "prekill_hooks_in_reverse_order_" in add.text(add.nodes[i].get("recv", -1))]
